@@ -74,8 +74,8 @@ def gen_call(rng, frame):
 class C04(core.Check):
     pid = 'C04'
     driver = 'drv_c01'
-    quick_cases = 200
-    thorough_cases = 4000
+    quick_cases = 800
+    thorough_cases = 9000
     rule = ("C01's abstract frames (optionally under a non-default index) are materialized - half of them a second time "
             'with the col_stats of the first materialization supplied - and the dataset\'s converter is then called 1-4 '
             'times in a row on: the whole frame, a single row, a permutation, one row repeated, random row multisets '
@@ -86,6 +86,11 @@ class C04(core.Check):
             'frame and statistics under supplied col_stats; plus convert(df.iloc[rows]) == tensor_frame[rows] through '
             'the library. Non-trivial = at least one call returned a frame; distinct = hash of the case.')
     partial_notes = (
+        'theorems are stated inside the typed domain (ConvFrameOK / CallOK: distinct column names, no text_tokenized '
+        'column, >= 1 row, one cell per row, every plain embedding column fitted with a width >= 0 that all its vectors '
+        'have); the empty selection df.iloc[[]] is outside it (the mappers need >= 1 row) and is not generated',
+        'convert_rows compares cell-wise through the frame\'s own lookup table (get_col_feat) and y; that this equals '
+        'TensorFrame.__getitem__ (tensor_frame[idx]) is C07\'s theorem and is checked here on the real objects only',
         'the aliasing itself (the converter\'s dict object is shared with every returned TensorFrame) is not '
         'expressible in the functional model: the model threads the name table as state; the harness checks the '
         'real dict after every call',
